@@ -1,28 +1,8 @@
 (* C18: what the Identifier constructors admit. *)
-From V Require Import lib.Base lib.Regex lib.RegexDecide lib.Utf8 gen.GenRegex model.Ident.
+From V Require Import lib.Base lib.Regex lib.RegexDecide lib.Utf8 gen.GenRegex model.Ident spec.IdentSpec.
 From V Require Import proofs.RegexFacts proofs.RegexDecideFacts proofs.RegexSpecs proofs.Utf8Facts.
 From Coq Require Import ZifyBool ZifyN.
 Local Open Scope N_scope.
-
-(* ---- the specification, byte level, independent of any regular expression ---- *)
-Definition is_alpha (b : N) : bool := ((65 <=? b) && (b <=? 90)) || ((97 <=? b) && (b <=? 122)).
-Definition is_ident_char (b : N) : bool :=
-  is_alpha b || ((48 <=? b) && (b <=? 57)) || (b =? 45) || (b =? 95).
-Definition ident_spec (r : bytes) : bool :=
-  match r with
-  | [] => false
-  | b :: t => is_alpha b && forallb is_ident_char t
-  end.
-
-(* ---- specification expressions and the bridge from the regenerated patterns ---- *)
-Definition alpha_cls : list (N * N) := [(65, 90); (97, 122)].
-Definition ident_cls : list (N * N) := [(45, 45); (48, 57); (65, 90); (95, 95); (97, 122)].
-Definition S_starts_alpha : regex := Cat BeginText (Cat (Cls alpha_cls) any_star).
-Definition S_only_ident : regex := Cat BeginText (Cat (Star (Cls ident_cls)) EndText).
-
-(* proof obligations on the regenerated data, evaluated by the kernel *)
-Definition bridge_start : bool := incl_ok (search G_startsWithAlphabetPattern) S_starts_alpha.
-Definition bridge_chars : bool := incl_ok (search G_onlyAlphanumericsOrHyphenPattern) S_only_ident.
 
 Lemma bridge_start_ok : bridge_start = true. Proof. vm_compute. reflexivity. Qed.
 Lemma bridge_chars_ok : bridge_chars = true. Proof. vm_compute. reflexivity. Qed.
@@ -93,8 +73,6 @@ Proof.
 Qed.
 
 (* completeness direction: everything the specification admits is accepted (no panic) *)
-Definition bridge_start_rev : bool := incl_ok S_starts_alpha (search G_startsWithAlphabetPattern).
-Definition bridge_chars_rev : bool := incl_ok S_only_ident (search G_onlyAlphanumericsOrHyphenPattern).
 Lemma bridge_start_rev_ok : bridge_start_rev = true. Proof. vm_compute. reflexivity. Qed.
 Lemma bridge_chars_rev_ok : bridge_chars_rev = true. Proof. vm_compute. reflexivity. Qed.
 
